@@ -59,6 +59,9 @@ def run(c, facts, tier):
     b = peg.Builder(facts)
     g = peg.Grammar(b)
     an = Anchors(facts, b)
+    from .. import glue
+
+    glue.obligations(c, facts, b, "C06")
     tokfn, lexfn, inner = an.role("token"), an.role("lex"), an.role("parse_inner")
     scope = b.scope(facts.fn(tokfn).module)
     spec = json.load(open(c01.SPEC))
